@@ -175,26 +175,99 @@ def gen_perms(rng, maxn):
 
 
 def gen_tweens(rng):
-    k = rng.choice([0, 1, 2, 3, 4, 6])
-    pool = TW[:max(2, k)] + ['MAIN', 'INGRESS', EXCVIEW, 'absent.tween']
+    """a history: rounds of add_tween calls (later rounds mostly RE-ADD existing names with other hints / another
+    factory), with a look at the order (implicit() or a request through a freshly made app) after every round"""
+    k = rng.choice([1, 2, 3, 4, 6])
+    live = TW[:max(2, k)]
+    pool = live + ['MAIN', 'INGRESS', EXCVIEW, 'absent.tween']
     explicit = []
-    if rng.random() < 0.25:
+    if rng.random() < 0.2:
         explicit = rng.sample(TW[:4] + [EXCVIEW], rng.choice([1, 2, 3]))
+
+    def hint(after):
+        r = rng.random()
+        if r < 0.45:
+            return None
+        c = lambda: (rng.choice(live) if rng.random() < 0.6 else
+                     (('INGRESS' if after else 'MAIN') if rng.random() < 0.6 else rng.choice(pool)))
+        if r < 0.8:
+            return c()
+        return [c() for _ in range(rng.choice([1, 2, 3]))]
+
+    events = []
+    added = []
+    rounds = rng.choice([1, 2, 2, 3])
+    for r in range(rounds):
+        n_adds = k if r == 0 else rng.choice([1, 1, 2, 3])
+        for _ in range(n_adds):
+            if r > 0 and added and rng.random() < 0.8:
+                name = rng.choice(added)                       # re-add: the number of names does not change
+            else:
+                name = rng.choice(live) if rng.random() < 0.95 else rng.choice(['MAIN', 'INGRESS'])
+            fid = _tw_id(name) if rng.random() < 0.6 else 10 * (r + 1) + _tw_id(name)
+            events.append(['add', name, fid, hint(True), hint(False)])
+            if name in TW and name not in added:
+                added.append(name)
+        if r < rounds - 1:
+            q = rng.random()
+            if q < 0.45:
+                events.append(['implicit'])
+            elif q < 0.9:
+                events.append(['request'])
+    events.append(['request'] if rng.random() < 0.8 else ['implicit'])
+    return {'k': 'tweens', 'explicit': explicit, 'autocommit': rng.random() < 0.7, 'events': events}
+
+
+PRED_KINDS = ['view', 'route', 'subscriber']
+PRED_USER = ['p0', 'p1', 'p2', 'p3']
+PRED_BUILTIN = {0: ['xhr', 'request_method', 'custom', 'accept', 'header', 'physical_path'],
+                1: ['xhr', 'request_method', 'custom', 'accept', 'header'],
+                2: []}
+
+
+def gen_preds(rng):
+    kind = rng.choice([0, 0, 1, 1, 1, 2])
+    k = rng.choice([1, 2, 2, 3, 3, 4])
+    builtin = PRED_BUILTIN[kind]
+    perm = PRED_USER[:]
+    rng.shuffle(perm)
+    chosen = perm[:k]
+    pos = {x: i for i, x in enumerate(chosen)}
+    order = chosen[:]
+    rng.shuffle(order)
+    if rng.random() < 0.2:
+        order.append(rng.choice(chosen))                   # re-add
+    if builtin and rng.random() < 0.1:
+        order.insert(rng.randrange(len(order) + 1), rng.choice(['xhr', 'header']))   # replace a built-in predicate
+    p_abs = rng.choice([0.0, 0.05, 0.15])
     adds = []
-    for _ in range(k):
-        name = rng.choice(TW[:max(2, k)]) if rng.random() < 0.95 else rng.choice(['MAIN', 'INGRESS'])
+    for name in order:
+        def target(after):
+            q = rng.random()
+            if q < p_abs:
+                return 'absent_pred'
+            if q < p_abs + 0.07:
+                return FIRST_T if after else LAST_T
+            if q < p_abs + 0.3 and builtin:
+                return rng.choice(builtin)
+            c = [x for x in chosen if x != name and (name not in pos or (pos[x] < pos[name]) == after)]
+            if c and rng.random() < 0.9:
+                return rng.choice(c)
+            if builtin and rng.random() < 0.7:
+                return rng.choice(builtin)
+            if rng.random() < 0.85:
+                return FIRST_T if after else LAST_T
+            return rng.choice(chosen)
 
         def hint(after):
-            r = rng.random()
-            if r < 0.45:
+            q = rng.random()
+            if q < 0.35:
                 return None
-            c = lambda: (rng.choice(TW[:max(2, k)]) if rng.random() < 0.6 else
-                         (('INGRESS' if after else 'MAIN') if rng.random() < 0.6 else rng.choice(pool)))
-            if r < 0.8:
-                return c()
-            return [c() for _ in range(rng.choice([1, 2, 3]))]
+            if q < 0.75:
+                return target(after)
+            return [target(after) for _ in range(rng.choice([1, 2, 3]))]
         adds.append([name, hint(True), hint(False)])
-    return {'k': 'tweens', 'explicit': explicit, 'adds': adds}
+    return {'k': 'preds', 'kind': kind, 'adds': adds}
 
 
 DV_DEFAULT = ['secured_view', 'csrf_view', 'owrapped_view', 'http_cached_view', 'decorated_view', 'rendered_view',
@@ -236,6 +309,9 @@ def generate(rng, tier, n):
     out = 0
     for i in range(n_app):
         yield gen_tweens(rng) if i % 2 == 0 else gen_derivers(rng)
+        out += 1
+    for i in range(n_app):
+        yield gen_preds(rng)
         out += 1
     pc = 0
     while pc < n_perm:
@@ -282,10 +358,26 @@ def valid(case):
         if k == 'tweens':
             if not all(x in TW + [EXCVIEW] for x in case['explicit']):
                 return False
-            for a in case['adds']:
-                if len(a) != 3 or a[0] not in TW + ['MAIN', 'INGRESS'] or not (_hint_ok(a[1]) and _hint_ok(a[2])):
+            evs = _tw_events(case)
+            if not evs or evs[-1][0] not in ('request', 'implicit'):
+                return False
+            for e in evs:
+                if e[0] == 'add':
+                    if len(e) != 5 or e[1] not in TW + ['MAIN', 'INGRESS'] or not isinstance(e[2], int) or e[2] < 1 \
+                            or not (_hint_ok(e[3]) and _hint_ok(e[4])):
+                        return False
+                elif e not in (['implicit'], ['request']):
                     return False
             return True
+        if k == 'preds':
+            if case['kind'] not in (0, 1, 2):
+                return False
+            for a in case['adds']:
+                if len(a) != 3 or a[0] not in PRED_USER + ['xhr', 'header'] or not (_hint_ok(a[1]) and _hint_ok(a[2])):
+                    return False
+                if case['kind'] == 2 and a[0] in ('xhr', 'header'):
+                    return False
+            return bool(case['adds'])
         if k == 'derivers':
             for a in case['adds']:
                 if len(a) != 3 or a[0] not in DV_USER + ['csrf_view', 'http_cached_view', 'INGRESS', 'VIEW'] \
@@ -320,9 +412,23 @@ def _tw_id(name):
     return TW.index(name) + 1 if name in TW else 0
 
 
+def _tw_events(case):
+    if 'events' in case:
+        return case['events']
+    return [['add', a[0], max(1, _tw_id(a[0])), a[1], a[2]] for a in case['adds']] + [['request']]   # older corpus format
+
+
+def _events_wire(case):
+    out = []
+    for e in _tw_events(case):
+        if e[0] == 'add':
+            out.append([0, [e[1], e[2], _hw(e[3]), _hw(e[4])]])
+        else:
+            out.append([1] if e[0] == 'implicit' else [2])
+    return out
+
+
 def _adds_wire(case):
-    if case['k'] == 'tweens':
-        return [[a[0], _tw_id(a[0]), _hw(a[1]), _hw(a[2])] for a in case['adds']]
     return [[a[0], i + 1, _hw(a[1]), _hw(a[2])] for i, a in enumerate(case['adds'])]
 
 
@@ -331,7 +437,9 @@ def to_wire(case):
     if k == 'sorter':
         return [0, case['cfg'], _ops_wire(case)]
     if k == 'tweens':
-        return [2, [[n, _tw_id(n)] for n in case['explicit']], _adds_wire(case)]
+        return [2, [[n, _tw_id(n)] for n in case['explicit']], _events_wire(case)]
+    if k == 'preds':
+        return [6, case['kind'], _adds_wire(case)]
     return [4, _adds_wire(case)]
 
 
@@ -347,6 +455,17 @@ def from_wire(case, raw):
         return {'model': ['MODEL-BAD', raw], 'spec': None}
     if case['k'] == 'sorter':
         return {'model': [_canon_outcome(o) for o in raw], 'spec': 'judge'}
+    if case['k'] == 'tweens':
+        out = []
+        for e, o in zip(_tw_events(case), raw):
+            if e[0] == 'implicit':
+                o = _canon_outcome(o)
+            elif e[0] == 'request' and o[0] == 1:
+                o = [1, _canon_outcome(o[1])]
+            out.append(o)
+        return {'model': out, 'spec': 'judge'}
+    if case['k'] == 'preds':
+        return {'model': [_canon_outcome(raw[0]), raw[1]], 'spec': 'judge'}
     codes, fin = raw
     if fin[0] == 1:
         fin = [1, _canon_outcome(fin[1])]
@@ -475,25 +594,84 @@ def _request(app):
 
 def run_tweens(case):
     C = _impl['Configurator']
+    tw = _impl['tw']
+    tw.reset()
+    auto = case.get('autocommit', True)
     settings = {'pyramid.tweens': ' '.join(case['explicit'])} if case['explicit'] else {}
-    config = C(settings=settings, autocommit=True)
-    codes = []
-    for name, under, over in case['adds']:
-        try:
-            config.add_tween(name, under=_hint_obj(under), over=_hint_obj(over))
-            codes.append(0)
-        except _impl['CE'] as e:
-            codes.append(_code(e, ((1, 'reserved tween name'), (2, 'cannot be over INGRESS'), (3, 'cannot be under MAIN'))))
+    config = C(settings=settings, autocommit=auto)
     config.add_view(_view)
     ident = lambda f: getattr(f, '_c18_id', 0)
-    tweens = config.registry.queryUtility(_impl['ITweens'])
+    out = []
     try:
-        app = config.make_wsgi_app()
-    except (_impl['CE'], _impl['CDE']) as e:
-        o = _observe_sorted(lambda: (_ for _ in ()).throw(e), ident)
-        return [codes, [1, o]]
-    use = tweens.explicit if tweens.explicit else tweens.implicit()
-    return [codes, [0, [[n, ident(f)] for n, f in use], _request(app)]]
+        for e in _tw_events(case):
+            if e[0] == 'add':
+                _, name, fid, under, over = e
+                if name in TW:
+                    tw.rebind(name, fid)
+                try:
+                    config.add_tween(name, under=_hint_obj(under), over=_hint_obj(over))
+                    if not auto:
+                        config.commit()
+                    out.append(0)
+                except _impl['CE'] as ex:
+                    out.append(_code(ex, ((1, 'reserved tween name'), (2, 'cannot be over INGRESS'),
+                                          (3, 'cannot be under MAIN'))))
+            elif e[0] == 'implicit':
+                if not auto:
+                    config.commit()
+                tweens = config.registry.queryUtility(_impl['ITweens'])
+                out.append(_observe_sorted(tweens.implicit, ident))
+            else:
+                try:
+                    app = config.make_wsgi_app()          # a fresh Router: tweens(handle_request, registry)
+                except (_impl['CE'], _impl['CDE']) as ex:
+                    out.append([1, _observe_sorted(lambda ex=ex: (_ for _ in ()).throw(ex), ident)])
+                    continue
+                tweens = config.registry.queryUtility(_impl['ITweens'])
+                use = tweens.explicit if tweens.explicit else tweens.implicit()
+                out.append([0, [[n, ident(f)] for n, f in use], _request(app)])
+    finally:
+        tw.reset()
+    return out
+
+
+class _Evt:
+    pass
+
+
+def run_preds(case):
+    kind = PRED_KINDS[case['kind']]
+    tw = _impl['tw']
+    config = _impl['Configurator'](autocommit=True)
+    ident = lambda f: getattr(f, '_c18_id', 0)
+    for i, (name, more, less) in enumerate(case['adds']):
+        getattr(config, 'add_%s_predicate' % kind)(name, tw.mk_pred(name, i + 1),
+                                                    weighs_more_than=_hint_obj(more), weighs_less_than=_hint_obj(less))
+    predlist = config.get_predlist(kind)
+    o = _observe_sorted(predlist.sorter.sorted, ident)
+    ev = []
+    if o[0] == 0:
+        kw = {n: 1 for n, v in o[1] if v > 0}
+        log = tw.LOG
+        del log[:]
+        if kind == 'view':
+            config.add_view(_view, **kw)
+            resp = _impl['Request'].blank('/').get_response(config.make_wsgi_app())
+        elif kind == 'route':
+            config.add_route('r', '/', **kw)
+            config.add_view(_view, route_name='r')
+            resp = _impl['Request'].blank('/').get_response(config.make_wsgi_app())
+        else:
+            config.add_subscriber(lambda e: None, _Evt, **kw)
+            config.registry.notify(_Evt())
+            resp = None
+        if resp is not None and resp.status_int != 200:
+            return [o, ['STATUS', resp.status_int]]
+        for x in log:
+            if x[0] == 3 and x[1] not in ev:
+                ev.append(x[1])
+        del log[:]
+    return [o, ev]
 
 
 def run_derivers(case):
@@ -525,6 +703,8 @@ def run_impl(case):
         return run_sorter(case)
     if k == 'tweens':
         return run_tweens(case)
+    if k == 'preds':
+        return run_preds(case)
     return run_derivers(case)
 
 
@@ -565,10 +745,17 @@ def verdicts(case, obs):
         if res is None or res == [['bad']]:
             return None if res is None else [False]
         return [bool(x) for x in res]
-    codes, fin = obs
     if k == 'tweens':
-        res = _judge_call([3, [[n, _tw_id(n)] for n in case['explicit']], _adds_wire(case), fin])
+        if len(obs) != len(_tw_events(case)):
+            return [False]
+        res = _judge_call([3, [[n, _tw_id(n)] for n in case['explicit']], _events_wire(case), obs])
+        if res is None or res == [['bad']]:
+            return None if res is None else [False]
+        return [bool(x) for x in res]
+    if k == 'preds':
+        res = _judge_call([7, case['kind'], _adds_wire(case), obs])
     else:
+        codes, fin = obs
         res = _judge_call([5, _adds_wire(case), fin])
     if res is None:
         return None
@@ -580,9 +767,6 @@ def _empty_alt_steps(case):
     seen = False
     out = []
     if case['k'] != 'sorter':
-        for a in case['adds']:
-            if a[1] == [] or a[2] == []:
-                return [0]
         return []
     for i, op in enumerate(case['ops']):
         if op[0] == 'add' and (op[3] == [] or op[4] == []):
@@ -643,7 +827,41 @@ def nontrivial(case, obs):
             if o[0] == 0 and len(o[1]) >= 2 and _present_arc(case, i):
                 return True
         return False
+    if case['k'] == 'tweens':
+        return any(e[0] == 'add' for e in _tw_events(case))
     return bool(case['adds'])
+
+
+def _tw_kinds(case, obs, names):
+    out = []
+    evs = _tw_events(case)
+    out.append('tweens-explicit' if case['explicit'] else 'tweens-implicit')
+    out.append('tweens-autocommit' if case.get('autocommit', True) else 'tweens-commit-after-each-add')
+    out.append('tweens-adds%d' % sum(1 for e in evs if e[0] == 'add'))
+    seen_names, looked, readd_after_look, changed_factory = {}, False, False, False
+    for e, o in zip(evs, obs if isinstance(obs, list) else []):
+        if e[0] == 'add':
+            out.append('tweens-add-code-%s' % (o if isinstance(o, int) else 'exc'))
+            if o == 0:
+                if e[1] in seen_names and looked:
+                    readd_after_look = True
+                    if seen_names[e[1]] != e[2]:
+                        changed_factory = True
+                seen_names[e[1]] = e[2]
+        else:
+            looked = True
+            if e[0] == 'implicit':
+                out.append('tweens-look-implicit-%s' % (names.get(o[0], 'exc') if isinstance(o, list) and o else 'exc'))
+            elif isinstance(o, list) and o:
+                if o[0] == 0:
+                    out.append('tweens-look-request-ok')
+                elif isinstance(o[1], list) and o[1]:
+                    out.append('tweens-look-request-%s' % names.get(o[1][0], 'exc'))
+    if readd_after_look:
+        out.append('tweens-readd-after-look')
+    if changed_factory:
+        out.append('tweens-readd-new-factory-after-look')
+    return sorted(set(out))
 
 
 def kinds(case, obs):
@@ -676,11 +894,21 @@ def kinds(case, obs):
                     out.append('deviation:' + FINDING_EMPTY)
             except Exception:
                 pass
+    elif k == 'tweens':
+        out += _tw_kinds(case, obs, names)
+    elif k == 'preds':
+        kind = PRED_KINDS[case['kind']]
+        out.append('preds-' + kind)
+        o = obs[0] if isinstance(obs, list) and obs else None
+        if isinstance(o, list) and o:
+            out.append('preds-%s-%s' % (kind, names.get(o[0], 'exc')))
+            if o[0] == 0 and len(obs[1]) >= 2:
+                out.append('preds-%s-evaluated>=2' % kind)
+        if any(a[1] is not None or a[2] is not None for a in case['adds']):
+            out.append('preds-%s-hinted' % kind)
     else:
         codes, fin = obs if (isinstance(obs, list) and len(obs) == 2) else ([], ['?'])
         out.append('%s-adds%d' % (k, len(case['adds'])))
-        if k == 'tweens':
-            out.append('tweens-explicit' if case['explicit'] else 'tweens-implicit')
         for c in codes:
             out.append('%s-add-code-%s' % (k, c if isinstance(c, int) else 'exc'))
         if isinstance(fin, list) and fin:
@@ -718,6 +946,21 @@ def targeted(broken, disagreements, rng):
                                                        ['add', 'c', 3, ['b', 'x'], None], ['add', 'a', 4, None, None]]})
     out.append({'k': 'tweens', 'explicit': [], 'adds': [[TW[0], None, None], [TW[1], TW[0], None], [TW[2], None, TW[0]]]})
     out.append({'k': 'tweens', 'explicit': [TW[1], TW[0]], 'adds': [[TW[0], None, None], [TW[1], TW[0], None]]})
+    for look in (['implicit'], ['request']):
+        for auto in (True, False):
+            # re-add after a look: new constraint, new factory, unsatisfiable re-add
+            out.append({'k': 'tweens', 'explicit': [], 'autocommit': auto, 'events': [
+                ['add', TW[0], 1, None, None], ['add', TW[1], 2, TW[0], None], look,
+                ['add', TW[1], 12, None, TW[0]], look, ['request']]})
+            out.append({'k': 'tweens', 'explicit': [], 'autocommit': auto, 'events': [
+                ['add', TW[0], 1, None, None], look, ['add', TW[0], 1, 'absent.tween', None], look, ['request']]})
+    for kind in (0, 1, 2):
+        out.append({'k': 'preds', 'kind': kind, 'adds': [['p0', None, None], ['p1', None, 'p0']]})
+        out.append({'k': 'preds', 'kind': kind, 'adds': [['p0', None, None], ['p1', 'p0', None], ['p2', ['p1', 'zz'], 'p0']]})
+        if kind < 2:
+            out.append({'k': 'preds', 'kind': kind, 'adds': [['p0', None, 'xhr'], ['p1', 'xhr', 'request_method']]})
+    for _ in range(300):
+        out.append(gen_preds(rng))
     out.append({'k': 'derivers', 'adds': [['d0', None, None], ['d1', 'd0', None], ['d2', None, 'd0']]})
     for _ in range(300):
         out.append(gen_tweens(rng))
